@@ -375,7 +375,7 @@ def handler (fn : String) : Option Handler :=
                   | .conv A, .conv B => some (overlapAlong2 A B ⟨n.x, n.y⟩)
                   | _, _ => none
                 let tag := match G1, G2 with
-                  | .conv A, .conv B => if roundTouching2 A B then tag ++ "[round-cores-touching]" else tag
+                  | .conv A, .conv B => if roundTouching2 A B then tag ++ "[round-cores-touching]" else if A.r + B.r > 0 then tag ++ "[round]" else tag
                   | _, _ => tag
                 judgeExactContact tag sep t (q pred) over (fun c => judgeSelf tag sz S (q pred) c memb)
                   (out.map fun c => embedC (qcontact2 c)))
@@ -407,7 +407,7 @@ def handler (fn : String) : Option Handler :=
                   | .conv A _, .conv B _ => some (overlapAlong3 A B n)
                   | _, _ => none
                 let tag := match G1, G2 with
-                  | .conv A Af, .conv B Bf => if roundTouching3 A Af B Bf then tag ++ "[round-cores-touching]" else tag
+                  | .conv A Af, .conv B Bf => if roundTouching3 A Af B Bf then tag ++ "[round-cores-touching]" else if A.r + B.r > 0 then tag ++ "[round]" else tag
                   | _, _ => tag
                 let tag := match G1, G2 with
                   | .conv A _, .conv B _ => if centreOnVertex3 A B then tag ++ "[centre-on-vertex]" else tag
